@@ -277,6 +277,9 @@ impl DeclareCommand {
         // Figure out where we should look.
         let lookup = if create_var_local {
             EnvironmentLookup::OnlyInCurrentLocal
+        } else if self.create_global {
+            // `-g` names the global variable even when a local or a temporary binding hides it.
+            EnvironmentLookup::OnlyInGlobal
         } else {
             EnvironmentLookup::Anywhere
         };
